@@ -1,6 +1,7 @@
 """Running one real Connection against scripted peers under the scheduler, with a
 trace of property-level observations (server packets, client frames, listener
 deliveries, callbacks) in exact global order."""
+import os
 import random
 
 from . import vsched, vnet, peer
@@ -22,7 +23,7 @@ class Run(object):
          outcome = run.go(scenario)   # scenario(run) runs as user thread u1
     """
 
-    def __init__(self, policy=None, seed=0, step_budget=60000, chunk='random', wall_timeout=60.0):
+    def __init__(self, policy=None, seed=0, step_budget=60000, chunk='random', wall_timeout=float(os.environ.get("VERIF_WALL_TIMEOUT", "300"))):
         self.sched = vsched.Sched(policy or vsched.SequentialPolicy(seed), step_budget=step_budget,
                                   wall_timeout=wall_timeout)
         self.rng = random.Random(seed)
@@ -86,6 +87,12 @@ class Run(object):
             inst.net.listen(HOST, PORT, self._accept)
             out = self.sched.run(lambda: scenario(self))
         self.outcome = out
+        if self.sched.error and 'watchdog' in str(self.sched.error):
+            # the real-time watchdog is there to end a hung harness, never to judge the library: executions are bounded
+            # by the (deterministic) step budget.  An overloaded host must not turn into a verdict.
+            from . import core
+            raise core.MachineryError('execution exceeded %.0f s of wall-clock time after %d scheduler steps (host overloaded, '
+                                      'or a hang in the harness): no verdict' % (self.sched.wall_timeout, self.sched.steps))
         return out
 
     # ---- helpers for scenarios
@@ -156,6 +163,6 @@ class TracingScript(peer.Script):
     def tagged(self, payload, kind, key):
         """A ('send', ...) step that also logs a srv event."""
         def fn(sc):
-            self.run.ev('srv', p=[kind, key])
+            self.run.ev('srv', p=[kind, key], conn=getattr(self, 'index', None))
             return payload
         return ('send', fn)
